@@ -5,13 +5,13 @@ without compression) into a fresh temp dir and loaded back with ``biom.load_tabl
 auto-detection), ``biom.parse_table(handle)`` and ``Table.from_hdf5(handle)``; every loaded table is compared
 field by field with the view of the source table taken (through raw fields) just before writing:
 
-  roundtrip/obs-ids, samp-ids     same IDs, same order
-  roundtrip/values                bit-identical float64 matrix
-  roundtrip/obs-md, samp-md       same per-ID metadata (None when the axis has none)
-  roundtrip/type, table-id        table id None reads back as the format's placeholder "No Table ID"
-  roundtrip/generated-by          the string handed to the writer
-  roundtrip/creation-date         the datetime handed to the writer (without one: the date found in the file)
-  roundtrip/obs-group-md, ...     text payload of every group-metadata entry
+  (scope roundtrip/) obs-ids, samp-ids   same IDs, same order
+  values                          bit-identical float64 matrix
+  obs-md, samp-md                 same per-ID metadata (None when the axis has none)
+  type, table-id                  table id None reads back as the format's placeholder "No Table ID"
+  generated-by                    the string handed to the writer
+  creation-date                   the datetime handed to the writer (without one: the date found in the file)
+  obs-group-md, samp-group-md     text payload of every group-metadata entry
   writes / loads                  neither direction raises on the property's domain
 
 Oracle: the source view (``rt.view``) - no reader or sibling function of the library.
@@ -66,7 +66,7 @@ def evaluate(case):
                 stamp = U.as_datetime(h.attrs['creation-date'])
             exp.create_date = stamp
             if not (isinstance(stamp, datetime.datetime) and t0 <= stamp <= t1):
-                fails.append(U.raw('roundtrip/creation-date', 'a time stamp taken while writing', repr(stamp)))
+                fails.append(U.raw('creation-date', 'a time stamp taken while writing', repr(stamp)))
         else:
             exp.create_date = date
         per_loader = {}
@@ -76,8 +76,8 @@ def evaluate(case):
             except Exception as e:
                 per_loader[loader] = [U.raw('loads', 'a table', U.exc_text(e))]
                 continue
-            fs = U.compare_core(got, exp, 'roundtrip/', exact=True)
-            fs += U.compare_header(got, exp, 'roundtrip/')
+            fs = U.compare_core(got, exp, '', exact=True)
+            fs += U.compare_header(got, exp, '')
             per_loader[loader] = fs
     # a clause failing under every loader is one failure; otherwise tag it with the loaders concerned
     clauses = {}
